@@ -419,6 +419,35 @@ def rule_r12(ctx):
         raise AnalysisBroken("no transition into CS_LEN found in http_chunk.c")
 
 
+def rule_r13(ctx):
+    r = ctx.rule("C16.R13", "T2", "the frame being read has one owner: wherever ws_read_frame_cb disposes of the frame it was given "
+                 "(ws_frame_fini, or queueing it on rxq for reassembly) it also clears ws->rxframe on that path -- a frame that is "
+                 "released but still referenced stops all further reading on the connection and is released again at teardown", floor=3)
+    prog = ctx.prog
+    f = prog.need("ws_read_frame_cb", WS)
+    if len(f.params) < 2:
+        raise AnalysisBroken("ws_read_frame_cb lost its frame parameter")
+    fr = f.params[1]["n"]
+    clears = {(t.b, t.i) for t in f.assigns() if t.node["lhs"].get("k") == "mem" and t.node["lhs"].get("f") == "rxframe" and
+              is_null(f.expand(t.node["rhs"]))}
+    disp = []
+    for c in f.calls(("ws_frame_fini", "nni_list_append")):
+        args = [f.expand(a) for a in c.node["args"] if a is not None]
+        if any(a.get("k") == "var" and a["n"] == fr for a in args):
+            disp.append(c)
+    G.need_sites(disp, "disposal of the frame", f)
+    for c in disp:
+        before = bool(clears) and f.dominated_by((c.b, c.i), blocked=lambda b, i, e: (b, i) in clears)
+        after = bool(clears) and (f.exit, 0) not in f.reach((c.b, c.i + 1), blocked=lambda b, i, e: (b, i) in clears)
+        if before or after:
+            r.ob(f, "%s line %s: rxframe cleared on the same path" % (c.node["fn"], c.line))
+        else:
+            ctx.fail(r, f, "%s(%s) with rxframe still set" % (c.node["fn"], fr), c.line,
+                     "ws_read_frame_cb disposes of the frame at line %s on a path that leaves ws->rxframe pointing at it: "
+                     "ws_start_read sees a frame in progress and never reads from the connection again, and ws_fini releases the "
+                     "frame a second time" % c.line)
+
+
 def run(ctx):
     ctx.guard(rule_r1)
     ctx.guard(rule_r2)
@@ -433,3 +462,4 @@ def run(ctx):
             rr.id = "C16.R8"
     ctx.guard(rule_r11)
     ctx.guard(rule_r12)
+    ctx.guard(rule_r13)
